@@ -6,22 +6,25 @@ import (
 	"path/filepath"
 )
 
-// writeReplay stores everything known about a failed obligation and, where a
-// replay harness exists for the function, runs it against the real code.
-func writeReplay(rep *Report, o *Obligation, r *FuncResult, s *Session) string {
-	path := filepath.Join(replayDir(rep.Prop), sanitize(o.Name)+".json")
+// writeReplay stores everything known about a violated claim (all failing
+// obligation instances) and, where a replay harness exists for the function,
+// runs it against the real code.
+func writeReplay(rep *Report, claim string, obls []*Obligation, r *FuncResult, s *Session) string {
+	path := filepath.Join(replayDir(rep.Prop), sanitize(claim)+".json")
+	var insts []map[string]interface{}
+	for _, o := range obls {
+		insts = append(insts, map[string]interface{}{
+			"obligation": o.Name, "kind": o.Kind, "at": o.Pos, "what": o.Desc, "status": o.Status,
+			"solver_answers": o.Answers, "solver_model": o.Model, "goal_smt": o.goal, "path_condition": o.pc,
+		})
+	}
 	m := map[string]interface{}{
-		"property":   rep.Prop,
-		"obligation": o.Name,
-		"kind":       o.Kind,
-		"function":   o.Func,
-		"at":         o.Pos,
-		"what":       o.Desc,
-		"solver_answers": o.Answers,
-		"solver_model":   o.Model,
-		"goal_smt":       o.goal,
-		"path_condition": o.pc,
+		"property":                rep.Prop,
+		"claim":                   claim,
+		"function":                r.Key,
+		"failed_obligations":      insts,
 		"failing_input_confirmed": false,
+		"explanation":             "every obligation of this claim was discharged on the reference tree; on the current source the listed instances are no longer provable",
 	}
 	if r.Err != "" {
 		m["generator_error"] = r.Err
@@ -29,11 +32,11 @@ func writeReplay(rep *Report, o *Obligation, r *FuncResult, s *Session) string {
 	if len(r.SpecErrs) > 0 {
 		m["contract_errors"] = r.SpecErrs
 	}
-	runReplayHarness(rep, o, r, s, m)
+	runReplayHarness(rep, claim, obls, r, s, m)
 	b, _ := json.MarshalIndent(m, "", " ")
 	os.WriteFile(path, b, 0o644)
 	return path
 }
 
-func runReplayHarness(rep *Report, o *Obligation, r *FuncResult, s *Session, m map[string]interface{}) {
+func runReplayHarness(rep *Report, claim string, obls []*Obligation, r *FuncResult, s *Session, m map[string]interface{}) {
 }
